@@ -118,8 +118,8 @@ def rule_doc(kind, attrs, layout):
 def gen_spec(rng, era):
     uid = pick(rng, ['p1', 'p2', 'p3', 'p4', 'p5', 'p6'])
     spec = {'uid': uid, 'description': pick(rng, [None, 'd']), 'effect': pick(rng, ['allow', 'deny']),
-            'subjects': [pick(rng, ['max', '<.*>', 'ma<x|y>'])], 'resources': [pick(rng, ['r', '<r.*>'])],
-            'actions': [pick(rng, ['get', '<get|put>'])],
+            'subjects': [pick(rng, ['max', '<.*>', 'ma<x|y>', '<m|n><a.*>'])], 'resources': [pick(rng, ['r', '<r.*>', '<r|s><x?>'])],
+            'actions': [pick(rng, ['get', '<get|put>', '<g|p>e<t+>', '<g|p><et|ut>'])],
             'rules': [(pick(rng, ['k', 'ip', 'n']), ) + gen_rule_spec(rng, era) for _ in range(rng.randint(0, 2))],
             'type': 1}
     seen = set()
